@@ -165,5 +165,6 @@ int  sk_revents(int p, int fd, int events);
 #define FS_DIR 4
 #define FS_NOACCESS 8
 #define FS_SUFFIX 16
+#define FS_FIFO 32      /* a named pipe (opening it does not wait here: its other side is taken to be there) */
 
 #endif
